@@ -13,7 +13,6 @@ use vstd::std_specs::cmp::OrdSpec;
 //@map /\bAtomicU32\b/ => VxAtomic
 //@map /derive::key_derive\(/ => vx_key_derive(
 //@map /"per-peer seed"\.as_bytes\(\)/ => vx_info_per_peer_seed()
-//@map /hkdf_info\.as_bytes\(\)/ => vx_info_c_lightning()
 verus! {
 
 #[verifier::external_body] pub struct VxSecp { _p: u8 }
@@ -117,7 +116,8 @@ impl NativeKeyDerive {
         (r.0, r.1, r.2, r.3, r.4, r.5@) == native_keys_spec(*keys_id),                             //[C18.native.keys-function-of-keys-id]
 //@sub /SecretKey::from_slice\(&keys_buf\[ndx\.\.ndx \+ 32\]\)\.vx_expect\(\)/ => vx_sk_from(&keys_buf, ndx)
 //@sub /keys_buf\[ndx\.\.ndx \+ 32\]\.try_into\(\)\.vx_expect\(\)/ => vx_arr32_from(&keys_buf, ndx)
-//@sub /&\[\]/ => &vx_empty()
+// the HKDF info is the constant b"c-lightning" (bound to a local or written in place): the binding is part of the anchor
+//@sub /(?:let hkdf_info = "c-lightning";\s*)?(let keys_buf: \[u8; 192\] = hkdf_sha256_keys\(keys_id, )(?:hkdf_info|"c-lightning")\.as_bytes\(\), &\[\]\);/ => \1vx_info_c_lightning(), &vx_empty());
 //@end
 }
 
